@@ -85,6 +85,9 @@ def model_get(rows, idx):
             raise TypeError('unsupported')
         rs = _rows_of(f, n)
         if isinstance(s, numbers.Integral):
+            if isinstance(f, np.ndarray):
+                # numpy-style: index array with a scalar column -> flat values
+                return 'flat', [_elem(rows[r], s) for r in rs]
             return 'rows', [np.asarray(_elem(rows[r], s))[None] for r in rs]
         if isinstance(s, slice):
             return 'rows', [rows[r][s] for r in rs]
